@@ -120,7 +120,6 @@ package x509
 //@   (ghost-set sig.sig (obj signature)))
 //@ (func "(*Certificate).CheckSignatureFrom" split-returns
 //@   (requires nn (and (not (isnil c)) (not (isnil parent))))
-//@   (requires errvar (not (isnil (global x509.ErrUnsupportedAlgorithm))))
 //@   (modifies)
 //@   (ghost-havoc sig.ok sig.key sig.tbs sig.sig)
 //@   (ensures ca (=> (isnil result) (or (and (=> (= (field parent Version) 3) (field parent BasicConstraintsValid))
@@ -156,7 +155,6 @@ package x509
 //@ (func "(*Certificate).Verify" sweep split-returns
 //@   (requires nn (not (isnil c)))
 //@   (requires roots (not (isnil (field opts Roots))))
-//@   (requires errvar (not (isnil (global x509.errNotParsed))))
 //@   (loop 1 (invariant any true))
 //@   (loop 2 (invariant any true))
 //@   (loop 3 (invariant any true))
@@ -165,3 +163,53 @@ package x509
 //@   (ensures window (=> (and (isnil err) (not (time.iszero (field (field opts0 CurrentTime) wall) (field (field opts0 CurrentTime) ext))))
 //@                       (and (not (tbefore (field opts0 CurrentTime) (old (field c NotBefore)))) (not (tafter (field opts0 CurrentTime) (old (field c NotAfter)))))))
 //@   (ensures host (=> (and (isnil err) (bvsgt (len (field opts0 DNSName)) 0)) (and (= (ghost host.ok) #x01) (= (ghost host.cert) (obj c))))))
+
+// ---- PKCS#7 signed data (C17): what a successful verification rests on -------------------------------------------------
+// verifySignature accepts a signer only if - when signed attributes are present - the message-digest attribute was compared
+// equal (crypto/hmac.Equal) with the digest computed over the content, and the signer certificate's CheckSignature
+// accepted the signature found in the signer info (ghost record of CheckSignature: verdict, certificate, signature).
+//@ (ghost sig.oks B64 monotone)
+//@ (func verifySignature sweep split-returns
+//@   (requires nn (not (isnil p7)))
+//@   (ghost-havoc hmac.last hmac.eqs hmac.a hmac.b sig.ok sig.key sig.tbs sig.sig)
+//@   (ensures digest (=> (and (isnil result) (bvsgt (len (field signer AuthenticatedAttributes)) 0))
+//@                       (bvugt (ghost hmac.eqs) (old (ghost hmac.eqs)))))
+//@   (ensures signature (=> (isnil result) (and (= (ghost sig.ok) #x01) (= (ghost sig.sig) (obj (field signer EncryptedDigest))))))
+//@   (ensures-internal signedby (=> (isnil result) (and (not (isnil cert)) (= (ghost sig.key) (obj cert)) (= (ghost sig.tbs) (obj signedData))))))
+// Verify accepts only a message with at least one signer, and only after verifySignature accepted (every signer: the loop
+// leaves at the first refusal)
+//@ (func "(*PKCS7).Verify" sweep split-returns
+//@   (requires nn (not (isnil p7)))
+//@   (ghost-havoc hmac.last hmac.eqs hmac.a hmac.b sig.ok sig.key sig.tbs sig.sig)
+//@   (loop 1 (invariant idx (and (bvsge rangeindex (bv -1 64)) (bvsle rangeindex #x0001000000000000)))
+//@           (invariant verdict (=> (bvsge rangeindex 0) (= (ghost sig.ok) #x01))))
+//@   (ensures signers (=> (isnil err) (bvsgt (old (len (field p7 Signers))) 0)))
+//@   (ensures verdict (=> (isnil err) (= (ghost sig.ok) #x01))))
+
+// ---- PKCS#7 content padding (pkcs7.go pad / unpad): exact verdicts -------------------------------------------------------
+// p7P: the last byte as a length; p7valid: PKCS#7 padding of block length b is present at the end of d
+//@ (defmacro p7P (d) (zext (at d (bvsub (len d) 1)) 64))
+//@ (defmacro p7valid (d b) (and (bvsge b 1) (bvsgt (len d) 0) (= (bvsrem (len d) b) 0)
+//@      (bvuge (p7P d) 1) (bvsle (p7P d) b) (bvsle (p7P d) (len d))
+//@      (forall ((j B64)) (=> (bvult j (p7P d)) (= (at d (bvadd (bvsub (len d) (p7P d)) j)) (at d (bvsub (len d) 1)))))))
+// unpad returns the data without its padding exactly when valid padding is present, an error otherwise; it writes nothing
+//@ (func unpad split-returns
+//@   (requires size (bvslt (len data) #x0000010000000000))
+//@   (modifies)
+//@   (ensures sound (=> (isnil result.1) (and (p7valid data blocklen) (= (obj result.0) (obj data)) (= (off result.0) (off data))
+//@                                           (= (len result.0) (bvsub (len data) (p7P data))))))
+//@   (ensures complete (=> (p7valid data blocklen) (isnil result.1)))
+//@   (loop 1
+//@     (invariant idx (and (bvsge rangeindex (bv -1 64)) (bvslt rangeindex (len pad))))
+//@     (invariant seen (forall ((j B64)) (=> (and (bvsge j 0) (bvsle j rangeindex)) (= (at pad j) ((_ extract 7 0) padlen)))))))
+// pad appends between 1 and blocklen bytes, each equal to their number, so that the length becomes a multiple of blocklen;
+// the data bytes are kept.  (Block lengths above 255 would not fit the pad byte: precondition.)
+//@ (func pad split-returns
+//@   (requires size (and (bvslt (len data) #x0000010000000000) (bvsle blocklen 255)))
+//@   (ensures err (= (isnil result.1) (bvsge blocklen 1)))
+//@   (ensures len (=> (isnil result.1) (and (= (len result.0) (bvadd (len data) (bvsub blocklen (bvsrem (len data) blocklen))))
+//@                                         (bvsgt (len result.0) (len data)) (bvsle (len result.0) (bvadd (len data) blocklen)))))
+//@   (ensures kept (=> (isnil result.1) (forall ((j B64)) (=> (bvult j (len data)) (= (at result.0 j) (old (at data j)))))))
+//@   (ensures fill (=> (isnil result.1) (forall ((j B64)) (=> (and (bvuge j (len data)) (bvult j (len result.0)))
+//@                                         (= (at result.0 j) ((_ extract 7 0) (bvsub (len result.0) (len data))))))))
+//@   (modifies (spare data)))
